@@ -31,6 +31,115 @@ pub struct SpillCase {
     /// that many thousand entries fit the root under a compressing codec
     #[serde(default)]
     pub regular: bool,
+    /// 0: lists as above (`n` entries). 2: a *noise-like* list (ids, run lengths, lengths and
+    /// scattered offsets of mixed magnitudes: the varint bytes do not compress, a codec makes the
+    /// directory a few bytes longer) whose plain encoding is tuned to `target` bytes. 3: a nearly
+    /// regular list with explicit offsets at varint boundaries (2^7k - 1, 2^7k), plain encoding
+    /// tuned to `target` bytes.
+    #[serde(default)]
+    pub kind: u8,
+    #[serde(default)]
+    pub target: u32,
+}
+
+fn varint_len(v: u64) -> usize {
+    (((64 - v.max(1).leading_zeros()) as usize) + 6) / 7
+}
+
+/// A value >= 1 of random magnitude: every further 7 bits are half as likely.
+fn magnitude(r: &mut Rng, max_bytes: u32) -> u64 {
+    let mut k = 1;
+    while k < max_bytes && r.chance(50) {
+        k += 1;
+    }
+    let lo = if k == 1 { 1 } else { 1u64 << (7 * (k - 1)) };
+    let hi = 1u64 << (7 * k);
+    lo + r.below(hi - lo)
+}
+
+fn noise_entries(seed: u64, count: usize) -> Vec<SpecEntry> {
+    let mut r = Rng::new(seed ^ 0x4015E);
+    let mut id = r.below(1000);
+    let mut out = Vec::with_capacity(count);
+    for _ in 0..count {
+        let delta = magnitude(&mut r, 4);
+        let run = 1 + (magnitude(&mut r, 3) - 1) % delta;
+        id += delta;
+        out.push(SpecEntry { tile_id: id, offset: magnitude(&mut r, 6), length: magnitude(&mut r, 4) as u32, run_length: run as u32 });
+    }
+    out
+}
+
+fn boundary_entries(seed: u64, count: usize) -> Vec<SpecEntry> {
+    let mut r = Rng::new(seed ^ 0xB0D4);
+    let specials = [127u64, 128, 126, 16_383, 16_384, 2_097_151, 2_097_152, (1 << 28) - 1, 1 << 28, (1 << 35) - 1, 1 << 35, (1 << 42) - 1];
+    let mut id = r.below(100);
+    let mut off = if r.chance(50) { *r.pick(&specials) } else { 0 };
+    let every = 1 + r.below(900);
+    let len = 1 + r.below(100) as u32;
+    let mut out = Vec::with_capacity(count);
+    for i in 0..count as u64 {
+        if i > 0 && i % every == 0 {
+            let v = *r.pick(&specials);
+            if v != off {
+                off = v;
+            }
+        }
+        out.push(SpecEntry { tile_id: id, offset: off, length: len, run_length: 1 });
+        id += 1;
+        off += u64::from(len);
+    }
+    out
+}
+
+/// Cuts / pads `list` so that its plain encoding is `target` bytes long (exactly, when the last
+/// entries' length fields can absorb the remainder; otherwise as close from below as possible).
+fn tune_to(mut list: Vec<SpecEntry>, target: usize) -> Vec<SpecEntry> {
+    // largest prefix that does not exceed the target
+    let size = |l: &[SpecEntry]| spec::encode_dir(l).len();
+    let (mut lo, mut hi) = (0usize, list.len());
+    while lo < hi {
+        let mid = (lo + hi + 1) / 2;
+        if size(&list[..mid]) <= target {
+            lo = mid;
+        } else {
+            hi = mid - 1;
+        }
+    }
+    list.truncate(lo);
+    for back in 0..list.len().min(8) {
+        let sz = size(&list);
+        if sz >= target {
+            break;
+        }
+        let i = list.len() - 1 - back;
+        let b = varint_len(u64::from(list[i].length));
+        let g = (target - sz).min(5 - b);
+        if g == 0 {
+            continue;
+        }
+        let old = list[i].length;
+        list[i].length = if b + g == 5 { 1 << 28 } else { 1u32 << (7 * (b + g - 1)) };
+        // keep a following contiguous entry contiguous
+        if i + 1 < list.len() && list[i + 1].offset == list[i].offset + u64::from(old) {
+            let shift = u64::from(list[i].length) - u64::from(old);
+            for e in list[i + 1..].iter_mut() {
+                e.offset += shift;
+            }
+        }
+        if size(&list) > target {
+            // (a neighbour's coding changed): undo, settle for "close from below"
+            list[i].length = old;
+            break;
+        }
+    }
+    list
+}
+
+fn tuned_list(kind: u8, seed: u64, target: u32) -> Vec<SpecEntry> {
+    let t = target as usize;
+    let base = if kind == 2 { noise_entries(seed, t / 4 + 16) } else { boundary_entries(seed, t / 4 + 16) };
+    tune_to(base, t)
 }
 
 pub struct SpillUtil;
@@ -101,12 +210,41 @@ impl Scenario for SpillUtil {
         let face = Face::draw(rng);
         let regular = rng.chance(12);
         let (n, ic) = if regular { (*rng.pick(&[4000u32, 4064, 4065, 4100, 6000, 9000, 16_384, 16_400, 17_000, 20_000, 20_447, 33_000, 70_000]), *rng.pick(&[2u8, 4, 3, 2, 4, 1, 1])) } else { (n, ic) };
-        to_value(&SpillCase { n, seed, ic, start, pos: *rng.pick(&[0u32, 0, 1, 64, 127, 5000, 20_000, 40_000]), beyond: if rng.chance(50) { 30_000 } else { 0 }, face, pol: Policy::draw(rng, face == Face::Async), regular })
+        let mut case = SpillCase { n, seed, ic, start, pos: *rng.pick(&[0u32, 0, 1, 64, 127, 5000, 20_000, 40_000]), beyond: if rng.chance(50) { 30_000 } else { 0 }, face, pol: Policy::draw(rng, face == Face::Async), regular, kind: 0, target: 0 };
+        // a quarter of the cases: lists whose *plain* encoding is tuned to a byte count around the
+        // budget - noise-like ones (a codec expands them by a few bytes: "the plain form fits" does
+        // not imply "the compressed form fits"), and nearly regular ones with explicit offsets at
+        // varint boundaries (exact byte counts 16 250..16 262, codec none mostly)
+        let mut r2 = Rng::new(rng.next_u64());
+        if r2.chance(25) && !regular {
+            if r2.chance(50) {
+                case.kind = 2;
+                case.ic = *r2.pick(&[4u8, 2, 3, 4, 2, 1]);
+                case.target = (16_257 + 6 - r2.below(48)) as u32;
+            } else {
+                case.kind = 3;
+                case.ic = *r2.pick(&[1u8, 1, 1, 2, 4]);
+                case.target = (16_250 + r2.below(13)) as u32;
+            }
+            case.seed = r2.below(1 << 20);
+            if matches!(case.start, Some(s) if s < 8) {
+                case.start = Some(64);
+            }
+        }
+        to_value(&case)
     }
     fn execute(&self, case: &Value, ctx: &mut Ctx) -> V<()> {
         let c: SpillCase = from_value(case);
         ctx.evals += 1;
-        let list = if c.regular { regular_entries(c.seed, c.n) } else { entries_of(c.seed, c.n) };
+        let list = if c.kind >= 2 {
+            ctx.bump(if c.kind == 2 { "probe_noise_lists_tuned_to_a_plain_size" } else { "probe_boundary_offset_lists_tuned_to_a_plain_size" }, 1);
+            tuned_list(c.kind, c.seed, c.target)
+        } else if c.regular {
+            regular_entries(c.seed, c.n)
+        } else {
+            entries_of(c.seed, c.n)
+        };
+        let c = SpillCase { n: list.len() as u32, ..c };
         if c.regular {
             ctx.bump("probe_regular_lists", 1);
         }
@@ -149,6 +287,18 @@ impl Scenario for SpillUtil {
             }
         };
         let fits = whole_len <= ROOT_BUDGET;
+        if c.kind >= 2 {
+            let plain = spec::encode_dir(&list).len() as u64;
+            if plain == u64::from(c.target) {
+                ctx.bump("probe_tuned_lists_hit_their_plain_size_exactly", 1);
+            }
+            if plain <= ROOT_BUDGET && !fits {
+                ctx.bump("probe_plain_form_fits_but_compressed_form_does_not", 1);
+            }
+            if plain == ROOT_BUDGET + 1 && c.ic == 1 {
+                ctx.bump("probe_uncompressed_list_one_byte_over_the_budget", 1);
+            }
+        }
         if (16_200..=16_500).contains(&whole_len) {
             ctx.bump("probe_lists_near_the_window", 1);
         }
@@ -200,13 +350,20 @@ impl Scenario for SpillUtil {
             }
         }
         // the crate's own reader resolves the assembled bytes to the same tiles
+        let addressed: u64 = list.iter().map(|e| u64::from(e.run_length)).sum();
+        if addressed > 300_000 {
+            // (the crate's reader expands runs into one map entry per tile: not repeated for
+            // lists whose runs address millions of tiles)
+            ctx.bump("readback_skipped_long_runs", 1);
+            return Ok(());
+        }
         let mut assembled = img[..end].to_vec();
         assembled.extend_from_slice(&leaves);
         let mut rd = SimDisk::plain(assembled);
         let m = sut::guard("read_directories", || pmtiles2::util::read_directories(&mut rd, comp, (u64::from(c.pos), root_len), end as u64, ..))?;
         match m {
             Ok(m) => {
-                ensure!(m.len() == list.len(), "C06:readback", "read_directories on the written bytes yields {} tiles, the list addresses {}", m.len(), list.len());
+                ensure!(m.len() as u64 == addressed, "C06:readback", "read_directories on the written bytes yields {} tiles, the list addresses {}", m.len(), addressed);
                 for e in list.iter().step_by((list.len() / 200).max(1)) {
                     ensure!(matches!(m.get(&e.tile_id), Some(ol) if ol.offset == e.offset && ol.length == e.length), "C06:readback", "read_directories maps tile {} to {:?}, expected offset {} length {}", e.tile_id, m.get(&e.tile_id).map(|o| (o.offset, o.length)), e.offset, e.length);
                 }
@@ -237,7 +394,7 @@ impl Scenario for SpillUtil {
             out.push(to_value(&SpillCase { start: None, ..c.clone() }));
         }
         for n in [c.n / 2, c.n * 3 / 4, c.n.saturating_sub(100), c.n.saturating_sub(1)] {
-            if n < c.n {
+            if n < c.n && c.kind < 2 {
                 out.push(to_value(&SpillCase { n, ..c.clone() }));
             }
         }
